@@ -195,6 +195,22 @@ theorem decide_api_path (cfg : Cfg) (path hdr : Bytes) (h : decide cfg path hdr 
           · cases hp
       · cases h
 
+/-- the PATH dimension: whatever follows `/api` in a URL path on the API side (base path stripped) — dot segments,
+    `docs`, doubled slashes, anything — the decision is the chain's verdict on the header alone: the model has no
+    path-dependent exemption from the chain -/
+theorem decide_api_any_path (cfg : Cfg) (rest hdr : Bytes) :
+    decide cfg (cfg.basePath ++ apiPrefix ++ rest) hdr = authChain cfg hdr := by
+  have hne : cfg.basePath ++ apiPrefix ++ rest ≠ [47] := by
+    intro h
+    have := congrArg List.length h
+    simp [apiPrefix] at this
+    omega
+  unfold decide
+  rw [if_neg (fun h => hne h.2)]
+  by_cases hb : cfg.basePath = []
+  · simp [hb, isPrefixOf, apiPrefix]
+  · simp [hb, isPrefixOf, apiPrefix, List.append_assoc]
+
 /-! ### chain: completeness -/
 
 
@@ -277,6 +293,7 @@ end BdModel.Auth
 #print axioms BdModel.Auth.authChain_sound
 #print axioms BdModel.Auth.authChain_api_or_401
 #print axioms BdModel.Auth.decide_api_path
+#print axioms BdModel.Auth.decide_api_any_path
 #print axioms BdModel.Auth.complete_basic
 #print axioms BdModel.Auth.complete_token
 #print axioms BdModel.Auth.noauth_passes
